@@ -175,6 +175,34 @@ Proof.
   apply jget_in in Hg. exact (Hall _ Hg).
 Qed.
 
+(* the same with the list built by an explicit loop with append instead of the comprehension *)
+Lemma loop_m_append_mapM {X Y} (F : X -> M Y) (body : list Y -> X -> M (ctl (list Y))) (l : list X) acc :
+  (forall a x, body a x = bind (F x) (fun t => ret (Continue (a ++ [t])%list))) ->
+  for_list_m l acc body = bind (mapM F l) (fun vs => ret (acc ++ vs)%list).
+Proof.
+  intros Hb. revert acc. induction l as [|x r IH]; intros acc; cbn [for_list_m mapM].
+  - cbn [bind ret]. rewrite app_nil_r. reflexivity.
+  - rewrite Hb. destruct (F x) as [y|e]; cbn [bind ret]; [|reflexivity].
+    rewrite IH. destruct (mapM F r) as [ys|e]; cbn [bind ret]; [|reflexivity].
+    rewrite <- app_assoc. reflexivity.
+Qed.
+Lemma build_terms_gen_loop {R} v (F : json -> M pterm) (body : list pterm -> json -> M (ctl (list pterm))) (k : list pterm -> M R) :
+  json_wf v ->
+  (forall a x, body a x = bind (F x) (fun t => ret (Continue (a ++ [t])%list))) ->
+  (forall x, is_obj x = true -> json_wf x -> F x = build_term s2f x) ->
+  (it <- json_iter v ;;
+   if py_all it (fun x => py_isinstance x [CDict]) then
+     it' <- json_iter v ;; a <- for_list_m it' [] body ;; k a
+   else raise ValueErr)
+  = (a <- build_terms s2f v ;; k a).
+Proof.
+  intros Hwf Hb HF. rewrite <- (build_terms_gen v F k Hwf HF).
+  unfold json_iter. destruct (py_iter v) as [items|e]; cbn [bind ret]; [|reflexivity].
+  destruct (py_all items (fun x => py_isinstance x [CDict])); [|reflexivity].
+  rewrite (loop_m_append_mapM F body items [] Hb). unfold list_comp_m.
+  destruct (mapM F items) as [vs|e]; reflexivity.
+Qed.
+
 Theorem from_dict_eq (init : list pterm -> list pterm -> list var -> list var -> bool -> M pcontract) contract simplify :
   (forall a g i o, init a g i o simplify = pc_init a g i o) ->
   json_wf contract ->
@@ -189,7 +217,20 @@ Proof.
   destruct (jget "input_vars" fs) as [ji|] eqn:Ei; cbn [negb andb bind ret raise]; [|reflexivity].
   destruct (jget "output_vars" fs) as [jo|] eqn:Eo; cbn [negb andb bind ret raise]; [|reflexivity].
   cbn [json_getitem]. rewrite Ea, Eg, Ei, Eo. cbn [bind ret].
-  rewrite (build_terms_gen ja); [|exact (jget_wf _ _ _ Hwf Ea)|intros x Hx Hw; apply clause_body_eq; assumption].
+  first
+  [ rewrite (build_terms_gen ja); [|exact (jget_wf _ _ _ Hwf Ea)|intros x Hx Hw; apply clause_body_eq; assumption]
+  | cbv zeta;
+    rewrite (build_terms_gen_loop ja
+               (fun x => t1 <- json_getitem x "coefficients" ;; it <- json_items t1 ;; t2 <- json_getitem x "constant" ;;
+                         f <- json_float s2f t2 ;;
+                         PolyhedralTerm_init_dyn s2f (sdict_comp it (fun '(k, v) => true) (fun '(k, v) => Var k) (fun '(k, v) => v)) (jfloat f)));
+    [|exact (jget_wf _ _ _ Hwf Ea)
+     |intros acc_ x;
+      destruct (json_getitem x "coefficients") as [t1|e1]; cbn [bind ret]; [|reflexivity];
+      destruct (json_items t1) as [it|e2]; cbn [bind ret]; [|reflexivity];
+      destruct (json_getitem x "constant") as [t2|e3]; cbn [bind ret]; [|reflexivity];
+      destruct (json_float s2f t2) as [f|e4]; cbn [bind ret]; reflexivity
+     |intros x Hx Hw; apply clause_body_eq; assumption] ].
   apply jbind_ext. intros a.
   rewrite (build_terms_gen jg); [|exact (jget_wf _ _ _ Hwf Eg)|intros x Hx Hw; apply clause_body_eq; assumption].
   apply jbind_ext. intros g.
